@@ -24,6 +24,7 @@ from . import core, isolate
 
 CHUNK = 25
 _ADAPTER = None
+KNOWN_KEYS = frozenset()
 
 
 def _one_run(base, i, tier):
@@ -32,10 +33,20 @@ def _one_run(base, i, tier):
     plan = ad.make_plan(base, i, tier)
     st = {}
     r = ad.execute(plan, st)
+    viols = r.get('violations') or []
+    known = [v['key'] for v in viols if v['key'] in KNOWN_KEYS]
+    unknown = [v for v in viols if v['key'] not in KNOWN_KEYS]
+    # one entry per distinct key and run
+    seen = set()
+    uniq = []
+    for v in unknown:
+        if v['key'] not in seen:
+            seen.add(v['key'])
+            uniq.append(v)
     return {'pd': core.sha(plan)[:20], 'nontrivial': bool(r.get('nontrivial')),
             'states': [x[:16] for x in (r.get('cache_states') or [])],
-            'diagnostics': (r.get('diagnostics') or [])[:2], 'violation': r['violation'],
-            'plan': plan if r['violation'] is not None else None, 'stats': st,
+            'diagnostics': (r.get('diagnostics') or [])[:2], 'violations': uniq, 'known': sorted(set(known)),
+            'plan': plan if uniq else None, 'stats': st,
             'sample': ad.sample_view(plan) if i % 997 == 0 else None}
 
 
@@ -43,7 +54,7 @@ def _worker_chunk(args):
     base, idxs, tier, per_chunk_timeout = args
     ad = _ADAPTER
     out = {'n': 0, 'digests': [], 'nontrivial': [], 'stats': {}, 'violations': [], 'harness_errors': [],
-           'states': [], 'diagnostics': [], 'samples': []}
+           'states': [], 'diagnostics': [], 'samples': [], 'known': {}}
     try:
         if not getattr(_worker_chunk, '_inited', False):
             ad.worker_init()
@@ -64,8 +75,11 @@ def _worker_chunk(args):
             for d in one['diagnostics']:
                 if len(out['diagnostics']) < 5:
                     out['diagnostics'].append({'i': i, 'diag': d})
-            if one['violation'] is not None:
-                out['violations'].append({'i': i, 'violation': one['violation'], 'plan': one['plan']})
+            for v in one['violations']:
+                out['violations'].append({'i': i, 'violation': v, 'plan': one['plan']})
+            for kk in one['known']:
+                h = out['known'].setdefault(kk, [0, i])
+                h[0] += 1
             if one['sample'] is not None and len(out['samples']) < 1:
                 out['samples'].append({'i': i, 'plan': one['sample']})
     finally:
@@ -82,7 +96,7 @@ def run_batch(adapter, tier, base, nruns, workers, soft_deadline_s, start=0):
     idxs = list(range(start, start + nruns))
     chunks = [idxs[k:k + CHUNK] for k in range(0, len(idxs), CHUNK)]
     agg = {'n': 0, 'digests': set(), 'nontrivial': set(), 'stats': {}, 'violations': [], 'harness_errors': [],
-           'states': set(), 'diagnostics': [], 'samples': [], 'stopped_by_deadline': False, 'chunks_done': 0}
+           'states': set(), 'diagnostics': [], 'samples': [], 'stopped_by_deadline': False, 'chunks_done': 0, 'known': {}}
     ctx = multiprocessing.get_context('fork')
     per_chunk_timeout = 600 if tier == 'quick' else 1800
     ex = cf.ProcessPoolExecutor(max_workers=workers, mp_context=ctx)
@@ -120,11 +134,15 @@ def run_batch(adapter, tier, base, nruns, workers, soft_deadline_s, start=0):
                 for k, v in r['stats'].items():
                     agg['stats'][k] = agg['stats'].get(k, 0) + v
                 agg['violations'].extend(r['violations'])
+                for kk, (cnt, first) in r['known'].items():
+                    h = agg['known'].setdefault(kk, [0, first])
+                    h[0] += cnt
+                    h[1] = min(h[1], first)
                 agg['harness_errors'].extend(r['harness_errors'])
                 agg['diagnostics'].extend(r['diagnostics'][:2])
                 agg['samples'].extend(r['samples'])
                 agg['chunks_done'] += 1
-            if len(agg['violations']) >= 20 or len(agg['harness_errors']) >= 5:
+            if len(set(v['violation']['key'] for v in agg['violations'])) >= 6 or len(agg['violations']) >= 60 or len(agg['harness_errors']) >= 5:
                 for f in pending:
                     f.cancel()
                 exhausted = True
